@@ -331,6 +331,9 @@ func makeFlag(it Item) (*ldmodel.FeatureFlag, error) {
 		g := plainFlag(f)
 		ldmodel.PreprocessFlag(&g)
 		return &g, nil
+	case 3:
+		g := flagViaBuilders(f)
+		return &g, nil
 	}
 	return &f, nil
 }
@@ -346,6 +349,9 @@ func makeSegment(it Item) (*ldmodel.Segment, error) {
 	case 2:
 		g := plainSegment(s)
 		ldmodel.PreprocessSegment(&g)
+		return &g, nil
+	case 3:
+		g := segmentViaBuilders(s)
 		return &g, nil
 	}
 	return &s, nil
@@ -673,7 +679,7 @@ func runGo(c *EvalCase) *T {
 
 func wireItem(it Item) *T {
 	form := it.Form
-	if form == 2 {
+	if form >= 2 {
 		form = 1
 	}
 	return L(A(uint64(form)), it.Doc.Wire())
